@@ -1054,6 +1054,9 @@ class mulgrid(object):
                 i = self.columnlist.index(self.column[olditem])
                 self.columnlist[i].name = newitem
                 self.column[newitem] = self.column.pop(olditem)
+            # connections are keyed by the names of their columns:
+            self.connection = dict([(tuple([col.name for col in con.column]), con)
+                                    for con in self.connectionlist])
             self.setup_block_name_index()
             self.setup_block_connection_name_index()
             return True
